@@ -152,6 +152,43 @@ def gen_pkg(rng, idx, opts):
     return {"name": "p%d" % idx, "opts": opts, "structpat": rng.choice(["Moq%s", "%sMock", "Stub%sImpl"]), "ifaces": ifaces}
 
 
+def gen_mixed_pkg(rng, idx):
+    """One output file holding 2-4 mocks whose skip-ensure / stub-impl / with-resets DIFFER per mock: several interfaces
+    with their own `config`, and interfaces mocked several times through `configs` entries (distinct struct names)."""
+    ifaces = []
+    for k in range(rng.randint(1, 3)):
+        generic = rng.random() < 0.25
+        ifaces.append(gen_iface(rng, ("G%d" if generic else "I%d") % k, generic))
+    base = dict(rng.choice(COMBOS))
+    mocks, pats = [], ["Moq%s", "%sMock", "Stub%sImpl", "Moq%sB", "Alt%s", "%sV2"]
+    n = rng.randint(max(2, len(ifaces)), 4)
+    slots = list(range(len(ifaces))) + [rng.randrange(len(ifaces)) for _ in range(n - len(ifaces))]
+    per = {}
+    for k in slots:
+        per[k] = per.get(k, 0) + 1
+    for k in sorted(per):
+        via = "configs" if per[k] > 1 or rng.random() < 0.4 else "config"
+        for j, pat in enumerate(rng.sample(pats, per[k])):
+            mocks.append({"iface": ifaces[k]["name"], "structpat": pat, "opts": dict(base), "via": via})
+    # the differing mock first / in the middle / last (by position in the configuration; the order inside the
+    # generated file is mockery's), and every option differs somewhere in the file
+    for key in ("stub-impl", "with-resets", "skip-ensure"):
+        for m in rng.sample(mocks, rng.randint(1, len(mocks) - 1)):
+            m["opts"][key] = not base[key]
+    for m in mocks:
+        if next(it for it in ifaces if it["name"] == m["iface"])["generic"]:
+            m["opts"]["skip-ensure"] = True          # generic ensure lines do not compile (C01)
+    return {"name": "p%d" % idx, "opts": base, "structpat": "Moq%s", "ifaces": ifaces, "level": "mixed", "mocks": mocks}
+
+
+def views(pkg):
+    """The mocks of a package as (package view, interface): a view carries the options and struct name of ONE mock."""
+    if not pkg.get("mocks"):
+        return [(pkg, it) for it in pkg["ifaces"]]
+    byname = {it["name"]: it for it in pkg["ifaces"]}
+    return [(dict(pkg, opts=m["opts"], structpat=m["structpat"], via=m["via"]), byname[m["iface"]]) for m in pkg["mocks"]]
+
+
 def render_pkg(pkg):
     out = ["package %s" % pkg["name"], "", "type T struct{ X int }", "type MyInt int", ""]
     for it in pkg["ifaces"]:
@@ -196,7 +233,20 @@ def build_module(ctx, pkgs, tag="mod", driver="drv_matryer", race=False):
         cfg += ["  %s/%s:" % (MOD, pkg["name"]), "    config:",
                 "      template: %s" % pkg.get("template", "matryer"),
                 '      structname: "%s"' % (pkg["structpat"] % "{{.InterfaceName}}")]
-        if pkg.get("level", "package") == "package":
+        if pkg.get("mocks"):
+            cfg += ["    interfaces:"]
+            for it in pkg["ifaces"]:
+                ms = [m for m in pkg["mocks"] if m["iface"] == it["name"]]
+                cfg += ["      %s:" % it["name"]]
+                if ms[0]["via"] == "configs":
+                    cfg += ["        configs:"]
+                    for m in ms:
+                        cfg += ['          - structname: "%s"' % (m["structpat"] % it["name"]), "            template-data:"]
+                        cfg += ["              %s: %s" % (k, "true" if v else "false") for k, v in sorted(m["opts"].items())]
+                else:
+                    cfg += ["        config:", '          structname: "%s"' % (ms[0]["structpat"] % it["name"]), "          template-data:"]
+                    cfg += ["            %s: %s" % (k, "true" if v else "false") for k, v in sorted(ms[0]["opts"].items())]
+        elif pkg.get("level", "package") == "package":
             cfg += ["      all: true"]
             if td:
                 cfg += ["      template-data:"] + ["        " + x for x in td]
@@ -207,9 +257,9 @@ def build_module(ctx, pkgs, tag="mod", driver="drv_matryer", race=False):
         reg.append('\t%s "%s/%s"' % (pkg["name"], MOD, pkg["name"]))
     reg += [")", "", "func init() {"]
     for pkg in pkgs:
-        for it in pkg["ifaces"]:
+        for v, it in views(pkg):
             inst = "[string, int]" if it["generic"] else ""
-            reg.append('\tregistry["%s"] = func() any { return &%s.%s%s{} }' % (mock_key(pkg, it), pkg["name"], struct_name(pkg, it), inst))
+            reg.append('\tregistry["%s"] = func() any { return &%s.%s%s{} }' % (mock_key(v, it), pkg["name"], struct_name(v, it), inst))
     reg.append("}")
     (mod / ".mockery.yml").write_text("\n".join(cfg) + "\n")
     (mod / "drv" / "registry.go").write_text("\n".join(reg) + "\n")
@@ -535,7 +585,9 @@ def case_term(c, outs):
 def describe(c, outs=None):
     it = c["iface"]
     d = {"mock": mock_key(c["pkg"], it), "template-data": c["pkg"]["opts"],
-         "template-data-set-at": c["pkg"].get("level", "package") + " level",
+         "template-data-set-at": c["pkg"].get("level", "package") + " level" + (" (%s entry)" % c["pkg"]["via"] if c["pkg"].get("via") else ""),
+         "all-mocks-of-the-output-file": [{"struct": m["structpat"] % m["iface"], "interface": m["iface"], "via": m["via"], "template-data": m["opts"]}
+                                          for m in c["pkg"].get("mocks") or []],
          "interface": [x for x in render_pkg(dict(c["pkg"], ifaces=[it])).split("\n") if x.strip()][3:],
          "history": [json.dumps(o, sort_keys=True) for o in c["hist"]]}
     if outs is not None:
@@ -585,7 +637,13 @@ def check(ctx, only=None):
         for j, c in enumerate(only):
             for m in c["iface"]["methods"]:
                 m.setdefault("resolved", resolved_names(m))
-            c["pkg"] = dict(c["pkg"], name="p%d" % j, ifaces=[c["iface"]])
+            if c["pkg"].get("mocks"):
+                c["pkg"] = dict(c["pkg"], name="p%d" % j)              # the whole output file is part of the case
+                for it in c["pkg"]["ifaces"]:
+                    for m in it["methods"]:
+                        m.setdefault("resolved", resolved_names(m))
+            else:
+                c["pkg"] = dict(c["pkg"], name="p%d" % j, ifaces=[c["iface"]])
             pkgs.append(c["pkg"])
         cases = only
     else:
@@ -593,6 +651,9 @@ def check(ctx, only=None):
         pkgs = [gen_pkg(ctx.rng, i, COMBOS[i % 8]) for i in range(8 * reps)]
         for pkg in pkgs[8 * (reps - 1):]:      # one full set of combinations configured per interface (most specific level)
             pkg["level"] = "interface"
+        nmix = 24 if ctx.thorough() else 10
+        pkgs += [gen_mixed_pkg(ctx.rng, 8 * reps + i) for i in range(nmix)]      # files whose mocks differ in their options
+        ngen = len(pkgs)
         nh, hl = (12, 60) if ctx.thorough() else (4, 40)
         cases = []
         for c in corpus_pkgs():
@@ -600,10 +661,10 @@ def check(ctx, only=None):
             c["pkg"] = dict(c["pkg"], name="p%d" % j, ifaces=[c["iface"]])
             pkgs.append(c["pkg"])
             cases.append(c)
-        for pkg in pkgs[:8 * reps]:
-            for it in pkg["ifaces"]:
-                for h in range(nh):
-                    cases.append({"pkg": pkg, "iface": it, "hist": gen_history(ctx.rng, it, hl if h else 2 * hl, malformed=(h == nh - 1))})
+        for pkg in pkgs[:ngen]:
+            for v, it in views(pkg):
+                for h in range(nh if not pkg.get("mocks") else max(2, nh // 2)):
+                    cases.append({"pkg": v, "iface": it, "hist": gen_history(ctx.rng, it, hl if h else 2 * hl, malformed=(h == nh - 1))})
     binary, err = build_module(ctx, pkgs)
     if binary is None:
         rp = ctx.write_replay("generate", {"what": err, "obligation": "correspondence for C04: the generated matryer mocks of the generator's "
@@ -647,11 +708,18 @@ def check(ctx, only=None):
     distinct = len({json.dumps([mock_term(c["pkg"], c["iface"]), c["hist"]], sort_keys=True) for c, o in zip(cases, outs) if nontrivial(o)})
     hist = {"ops": {}, "outcomes": {}, "params_per_method": {}, "results_per_method": {}, "param_style": {}, "options": {},
             "types": {}, "option_level": {}, "nested_ops_in_installed_funcs": {}, "nested_outcomes": {}, "variadic_methods": 0, "generic_interfaces": 0, "methods": 0, "interfaces": 0}
+    hist["mocks_per_mixed_file"], hist["mixed_via"] = {}, {}
     for pkg in pkgs:
-        key = ",".join(k for k, v in sorted(pkg["opts"].items()) if v) or "none"
-        hist["options"][key] = hist["options"].get(key, 0) + 1
+        for v, _ in views(pkg):
+            key = ",".join(k for k, x in sorted(v["opts"].items()) if x) or "none"
+            hist["options"][key] = hist["options"].get(key, 0) + 1
         lv = pkg.get("level", "package")
         hist["option_level"][lv] = hist["option_level"].get(lv, 0) + 1
+        if pkg.get("mocks"):
+            n = str(len(pkg["mocks"]))
+            hist["mocks_per_mixed_file"][n] = hist["mocks_per_mixed_file"].get(n, 0) + 1
+            for m in pkg["mocks"]:
+                hist["mixed_via"][m["via"]] = hist["mixed_via"].get(m["via"], 0) + 1
         for it in pkg["ifaces"]:
             hist["interfaces"] += 1
             hist["generic_interfaces"] += it["generic"]
